@@ -257,6 +257,20 @@ def r3_post(ctx, prog):
                             is_min = (c.get('op') in ('>', '>=') and t_ == r_) or (c.get('op') in ('<', '<=') and t_ == l_)
                     if x['k'] in q.CALL_KINDS and x.get('callee', '').startswith('std::min'):
                         is_min = 'readableSize()' in {ft.path(a_) for a_ in x.get('args', [])}
+            # form 3:  V = a;  if (V > b) V = b;   (both definitions reach the copy, the second one only behind the comparison)
+            defs = [d for d in rd.local_defs(ft, v['d']) if d['rhs'] is not None]
+            if not is_min and len(defs) == 2:
+                d0, d1 = sorted(defs, key=lambda d: d['sid'])
+                a_, b_ = ft.path(d0['rhs']), ft.path(d1['rhs'])
+                if 'readableSize()' in (a_, b_) and d1['point'] is not None:
+                    for cond, kk, blk in ft.cfg.controlling_branches(d1['point']):
+                        c = ft.s(ft.strip_casts(cond))
+                        if c and c['k'] == 'BinaryOperator' and c.get('op') in ('>', '>=', '<', '<='):
+                            l_, r_ = ft.path(c['ch'][0]), ft.path(c['ch'][1])
+                            vname = ft.path(v['i'])
+                            gt = (l_ in (vname, a_) and r_ == b_ and c['op'] in ('>', '>=') and kk == 0) or (l_ == b_ and r_ in (vname, a_) and c['op'] in ('<', '<=') and kk == 0)
+                            if gt and q.stable(ft, 'this', d0['point'], q.pt(ft, mc[0])):
+                                is_min = True
         ok = is_min and ft.path(hr[0]['args'][0]) == lenp and any(c.get('fn') == 'readableBegin' for c in q.subtree_calls(ft, mc[0]['args'][1])) and \
             ft.cfg.dominates(q.pt(ft, mc[0]), q.pt(ft, hr[0]))
     ctx.ob('C07.R3', '%s|copy-min-consume' % ft.name, ok, 'memcpy(out, readableBegin(), min(request, readableSize())) then hasRead(the same amount)', where=ft.loc(ft.body))
